@@ -1,4 +1,5 @@
 import EtVerif.Props.C20
+import EtVerif.Props.C15
 #print axioms EtVerif.C20.stages
 #print axioms EtVerif.C20.rows_each_peer_once
 #print axioms EtVerif.C20.rows_sorted_desc
@@ -8,3 +9,4 @@ import EtVerif.Props.C20
 #print axioms EtVerif.C20.unusable_is_400
 #print axioms EtVerif.C20.unusable_records
 #print axioms EtVerif.C20.rat_eq_field
+#print axioms EtVerif.C15.bounded_computation_playground
